@@ -361,6 +361,7 @@ func runCheck(prop, tier string, seed int) int {
 		"known_findings_reported":  len(dedupe(knownHit)),
 		"samples":                  samples,
 		"contract_files":           w.db.Files,
+		"contract_file_notes":      w.contractNotes,
 		"rule":                     "one obligation per potentially panicking instruction, per requires at a call site, per ensures at each return, per loop invariant (init/keep); an obligation is discharged when the negated goal is unsat",
 	}
 	if len(ps.Bounded) > 0 {
